@@ -337,9 +337,15 @@ def r_unesc(ctx, rep, files=("src/xlsx/mod.rs", "src/xlsx/cells_reader.rs", "src
             for b in walk_k(i["cond"], "Binary"):
                 if b["op"] == "==" and any(f.get("name") == "key" for f in walk_k(b, "Field")):
                     names += [s_ for s_ in str_lits(b) if s_ in TEXT_ATTRS]
-            for lp in walk_k(i["cond"], "LetExpr"):
-                names += [e_["e"]["v"] for e_ in walk_k(lp["pat"], "PLit") if e_["e"].get("lit") in ("str", "bstr") and e_["e"].get("v") in TEXT_ATTRS]
             conv = _value_conversions(i["then"])
+            if names and conv:
+                for nm in names:
+                    seen.setdefault(nm, []).append((i, conv))
+        for i in walk_k(fn.body, "Match"):
+            if i.get("src") != "IfLet":
+                continue
+            names = [e_["e"]["v"] for e_ in walk_k(i["arms"][0]["pat"], "PLit") if e_["e"].get("lit") in ("str", "bstr") and e_["e"].get("v") in TEXT_ATTRS]
+            conv = _value_conversions(i["arms"][0]["body"])
             if names and conv:
                 for nm in names:
                     seen.setdefault(nm, []).append((i, conv))
@@ -547,7 +553,7 @@ def r_chase(ctx, rep):
                     continue
                 n += 1
                 k += 1
-                key = "%s|R-CHASE|while#%d %s" % (fn.name, k, vname)
+                key = "%s|R-CHASE|while#%d" % (fn.name, k)
                 # any other exit: break / return (not `?`) inside the body, or the condition also depends on a second
                 # variable that the body updates (a counter, a visited set) or on a call (a length against a limit)
                 exits = [b for b in walk(body) if b.get("k") in ("Break", "Ret") and not b["span"].get("desugar")]
